@@ -1,11 +1,19 @@
 #!/bin/bash
-# usage: tools/try_seed.sh <patch.diff> <Cxx> [quick|thorough]  -- applies a seeded change to /repo, runs the check, reverts.
+# usage: tools/try_seed.sh <patch.diff> <Cxx> [quick|thorough]
+# Applies a seeded change to /repo, builds the harness + binary against it, reverts /repo at once
+# (all under /tmp/verif-repo.lock so that no other build sees the seeded sources), then runs the check
+# with the seeded binaries.
 set -u
 PATCH="$1"; ID="$2"; TIER="${3:-quick}"
 cd /repo || exit 2
-git diff --quiet HEAD || { echo "/repo has uncommitted changes" >&2; exit 2; }
-git apply "$PATCH" || { echo "patch does not apply" >&2; exit 2; }
-( cd /verif && ./check "$ID" "$TIER" > "/tmp/seedrun-$ID.log" 2>&1 ); RC=$?
-git -C /repo reset -q --hard HEAD ; git -C /repo clean -fdq -e target
+(
+  flock 9
+  git diff --quiet HEAD || { echo "/repo has uncommitted changes" >&2; exit 2; }
+  git apply "$PATCH" || { echo "patch does not apply" >&2; exit 2; }
+  ( cd /verif && ./setup.sh > "/tmp/seedbuild-$ID.log" 2>&1 ); B=$?
+  git -C /repo reset -q --hard HEAD ; git -C /repo clean -fdq -e target
+  exit $B
+) 9>/tmp/verif-repo.lock || { echo "build with the seeded change failed"; tail -20 "/tmp/seedbuild-$ID.log"; exit 2; }
+( cd /verif && VERIF_SKIP_BUILD=1 ./check "$ID" "$TIER" > "/tmp/seedrun-$ID.log" 2>&1 ); RC=$?
 echo "exit=$RC"; grep -E '^(VIOLATION|KNOWN-FINDING|MACHINERY|  signature|\[C)' "/tmp/seedrun-$ID.log" | head -20
 exit 0
